@@ -10,6 +10,14 @@ use slotted_egraphs::*;
 use std::cell::RefCell;
 use std::rc::Rc;
 
+/// rules used by the runner suite only (control flow is judged here, not the meaning of the rules): a non-linear left side
+/// that starts to match once its two children are found to be the same class up to a symmetry
+const EXTRA: [(&str, &str, &str, &[(&str, &str)]); 2] = [("k-same", "(k ?a ?a)", "?a", &[]), ("k-same-h", "(k ?a ?a)", "(h ?a)", &[])];
+
+fn rule_at(i: usize) -> &'static (&'static str, &'static str, &'static str, &'static [(&'static str, &'static str)]) {
+    if i < POOL.len() { &POOL[i] } else { &EXTRA[i - POOL.len()] }
+}
+
 #[derive(Clone)]
 struct IterRec {
     measure: (usize, usize, usize, usize),
@@ -39,7 +47,7 @@ pub fn exec_runner_p(start: Vec<ATerm>, rules: Vec<usize>, iter_limit: usize, no
     let desc = format!(
         "start={} rules={} fail_at={:?} plant={plant}",
         start.iter().map(enc_term).collect::<Vec<_>>().join("+"),
-        rules.iter().map(|i| POOL[*i].0).collect::<Vec<_>>().join("."),
+        rules.iter().map(|i| rule_at(*i).0).collect::<Vec<_>>().join("."),
         fail_at
     );
     let r = in_fresh_thread(move || {
@@ -48,7 +56,7 @@ pub fn exec_runner_p(start: Vec<ATerm>, rules: Vec<usize>, iter_limit: usize, no
             let _ = Slot::named(nm);
         }
         let mut tags: Vec<String> = Vec::new();
-        let rws: Vec<Rewrite<Main>> = rules.iter().map(|i| mk_rule(&POOL[*i])).collect();
+        let rws: Vec<Rewrite<Main>> = rules.iter().map(|i| mk_rule(rule_at(*i))).collect();
         let recs: Rc<RefCell<Vec<IterRec>>> = Rc::new(RefCell::new(Vec::new()));
         let tracked: Rc<RefCell<Vec<AppliedId>>> = Rc::new(RefCell::new(Vec::new()));
         let (stop, iterations, report_nodes, eg, initial): (String, usize, usize, EGraph<Main>, IterRec);
@@ -159,13 +167,13 @@ pub fn exec_runner_p(start: Vec<ATerm>, rules: Vec<usize>, iter_limit: usize, no
             // applying every rule once more changes nothing, and both sides of every match are already equal
             let tr = tracked.borrow().clone();
             let fp = fingerprint(&eg, &tr);
-            let rws2: Vec<Rewrite<Main>> = rules.iter().map(|i| mk_rule(&POOL[*i])).collect();
+            let rws2: Vec<Rewrite<Main>> = rules.iter().map(|i| mk_rule(rule_at(*i))).collect();
             if apply_rewrites(&mut eg, &rws2) || fingerprint(&eg, &tr) != fp {
                 tags.push("viol:saturated-but-rewrites-change-something".into());
             }
             for i in &rules {
-                let (lhs, rhs) = (Pattern::<Main>::parse(POOL[*i].1).unwrap(), Pattern::<Main>::parse(POOL[*i].2).unwrap());
-                let conds: Vec<(Slot, String)> = POOL[*i].3.iter().map(|(x, a)| (Slot::named(x), a.to_string())).collect();
+                let (lhs, rhs) = (Pattern::<Main>::parse(rule_at(*i).1).unwrap(), Pattern::<Main>::parse(rule_at(*i).2).unwrap());
+                let conds: Vec<(Slot, String)> = rule_at(*i).3.iter().map(|(x, a)| (Slot::named(x), a.to_string())).collect();
                 for subst in ematch_all(&eg, &lhs) {
                     if !conds.iter().all(|(s, a)| !subst[a].slots().contains(s)) {
                         continue;
@@ -196,7 +204,7 @@ pub fn exec_direct(start: Vec<ATerm>, rules: Vec<usize>, iters: usize) -> Case {
     let desc = format!(
         "direct start={} rules={}",
         start.iter().map(enc_term).collect::<Vec<_>>().join("+"),
-        rules.iter().map(|i| POOL[*i].0).collect::<Vec<_>>().join(".")
+        rules.iter().map(|i| rule_at(*i).0).collect::<Vec<_>>().join(".")
     );
     let r = in_fresh_thread(move || {
         intern_names();
@@ -216,7 +224,7 @@ pub fn exec_direct(start: Vec<ATerm>, rules: Vec<usize>, iters: usize) -> Case {
                 }
             }
         }
-        let rws: Vec<Rewrite<Main>> = rules.iter().map(|i| mk_rule(&POOL[*i])).collect();
+        let rws: Vec<Rewrite<Main>> = rules.iter().map(|i| mk_rule(rule_at(*i))).collect();
         let mut steps = Vec::new();
         let mut outs = Vec::new();
         for _ in 0..iters {
@@ -381,7 +389,7 @@ pub fn run(ctx: &mut Ctx) {
                 for t in &st {
                     eg.add_expr(to_recexpr::<Main>(t));
                 }
-                let rws: Vec<Rewrite<Main>> = ix.iter().map(|i| mk_rule(&POOL[*i])).collect();
+                let rws: Vec<Rewrite<Main>> = ix.iter().map(|i| mk_rule(rule_at(*i))).collect();
                 let mut v = vec![eg.total_number_of_nodes()];
                 for _ in 0..4 {
                     if eg.total_number_of_nodes() > 300 || !apply_rewrites(&mut eg, &rws) {
@@ -412,6 +420,27 @@ pub fn run(ctx: &mut Ctx) {
         }
         let fail_at = if rng.chance(1, 4) { Some(rng.below(3)) } else { None };
         let eqsat = rng.chance(1, 3);
+        if rng.chance(1, 8) {
+            // an iteration whose only effect is a new class symmetry (no new e-node, no merged class): `S = x op y` and its
+            // mirror image `y op x` are one class with swapped arguments; commutativity turns the swap into a symmetry, and only
+            // then the non-linear `(k ?a ?a)` matches `(k S S')`.  The run must not stop before that rule has fired
+            let var = |c: u32| ATerm { v: 2, fields: vec![CField::Slot(c)], children: vec![] };
+            let bin = |v: usize, a: ATerm, b: ATerm| ATerm { v, fields: vec![CField::App, CField::App], children: vec![a, b] };
+            let op = if rng.chance(1, 2) { 4 } else { 5 };
+            let (x, y) = (4u32, 8u32);
+            let (s1, s2) = (bin(op, var(x), var(y)), bin(op, var(y), var(x)));
+            let mut st = vec![bin(14, s1.clone(), s2)];
+            if rng.chance(1, 2) {
+                st.push(s1);
+            }
+            let comm = POOL.iter().position(|r| r.0 == if op == 4 { "add-comm" } else { "mul-comm" }).unwrap();
+            let mut rl = vec![comm, POOL.len() + rng.below(2)];
+            if rng.chance(1, 2) {
+                rl.reverse();
+            }
+            ctx.emit(exec_runner_p(st, rl, 30, 1500, None, eqsat, false));
+            continue;
+        }
         if rng.chance(1, 3) {
             let sd = rng.next();
             ctx.emit(exec_scripted(sd));
